@@ -28,6 +28,16 @@ _real_setitimer = signal.setitimer
 REAL_CAP = float(os.environ.get('ESRSIM_REAL_CAP', '30'))
 
 
+LIMITED_NAME = '__esrsim_limited__'
+
+
+def _is_time_limit(e):
+    if not isinstance(e, ast.Call):
+        return False
+    f = e.func
+    return (isinstance(f, ast.Name) and f.id == 'time_limit') or (isinstance(f, ast.Attribute) and f.attr == 'time_limit')
+
+
 class Ticker(ast.NodeTransformer):
     """Insert `__esrsim_tick__()` before every statement of every function body."""
     infunc = 0
@@ -72,6 +82,17 @@ class Ticker(ast.NodeTransformer):
         return node
     visit_AsyncFunctionDef = visit_FunctionDef
 
+    def visit_With(self, node):
+        node = self.generic_visit(node)
+        if self.infunc and node.body and any(_is_time_limit(it.context_expr) for it in node.items):
+            # probe (not a tick): the body of a `with time_limit(...)` must start with its timer armed
+            call = ast.Expr(ast.Call(ast.Name(LIMITED_NAME, ast.Load()), [], []))
+            ast.copy_location(call, node.body[0])
+            call.end_lineno = call.lineno
+            ast.fix_missing_locations(call)
+            node.body.insert(0, call)
+        return node
+
     def visit_ClassDef(self, node):
         node.body = [self.visit(s) for s in node.body]
         return node
@@ -102,6 +123,7 @@ class VClock:
         self.alarm_calls = 0
         self.real_expired = 0
         self.t0 = 0.0
+        self.unarmed = []          # (function, line) of time-limited bodies entered with no timer armed
 
     # --- the replacement for signal.alarm -------------------------------------------------
     def alarm(self, n):
@@ -186,6 +208,12 @@ class VClock:
             sys.settrace(None)
         self.deep = False
 
+    # --- invariant probe: a time-limited body runs under an armed timer ------------------------
+    def limited(self):
+        if not self.open and len(self.unarmed) < 20:
+            f = sys._getframe(1)
+            self.unarmed.append((f.f_code.co_name, f.f_lineno))
+
     # --- statement ticks ------------------------------------------------------------------
     def tick(self):
         if not self.open:
@@ -236,7 +264,7 @@ class VClock:
 
     def report(self):
         return dict(blocks=self.blocks, fired=list(self.fired), armed_not_fired=list(self.armed_not_fired),
-                    leaks=self.leaks, real_expired=self.real_expired, profile=list(self.profile) if self.record else None)
+                    leaks=self.leaks, real_expired=self.real_expired, unarmed=list(self.unarmed), profile=list(self.profile) if self.record else None)
 
 
 CLOCK = VClock()
@@ -251,6 +279,7 @@ class TickLoader(importlib.machinery.SourceFileLoader):
 
     def exec_module(self, module):
         module.__dict__[TICK_NAME] = CLOCK.tick
+        module.__dict__[LIMITED_NAME] = CLOCK.limited
         super().exec_module(module)
 
     def get_code(self, fullname):   # never read or write .pyc for instrumented modules
